@@ -144,7 +144,7 @@ def atoms_cap():
             T("$"), T("$", t), T("constant", Kw("k")), T("constant", b"ab", t), T("constant", 2),
             T("argument", 0), T("argument", 1, t), T("argument", 2),
             T("line"), T("column", t),
-            T("->", t), T("->", t, u), T("backmatch"), T("backmatch", t),
+            T("->", t), T("->", t, u), T("->", u), T("<-", b"a", u), T("backmatch"), T("backmatch", t),
             T("uint", 1), T("int", 1, t), T("uint-be", 2), T("int-be", 2),
             T("number", 1, 16), T("number", 2, 16, t)]
 
@@ -167,6 +167,7 @@ def probes():
             T("to", b"b"),
             T("thru", T("<-", b"b")),
             T("*", T("<-", 1), T("->", t)),
+            T("*", T("<-", 1, t), T("<-", 1, Kw("u"))),
             T("lenprefix", T("$"), T("<-", 1, t))]
 
 
@@ -271,6 +272,8 @@ def context_forms():
     add("acc-alt-rest", lambda p: T("%", T("+", p, rest)))
     add("acc:t-seq-rest", lambda p: T("%", T("*", T("<-", 1), p, rest), t))
     add("group-pre-tag", lambda p: T("group", T("*", T("<-", 1, t), p, T("?", T("->", t)))))
+    add("two-tags", lambda p: T("group", T("*", T("<-", 1, Kw("u")), p, T("?", T("->", t)), T("?", T("->", Kw("u"))),
+                                            T("?", T("backmatch")))))
     add("any", lambda p: T("any", p))
     add("acc-any", lambda p: T("%", T("any", p)))
     add("window", lambda p: T("*", T("sub", 2, p), rest))
@@ -343,6 +346,14 @@ def run_unit(u):
         items = ['["api" %s %s :%s]' % (emit(p), emit(s), u.setname) for p, s in u.pats]
     out = run_batch(u.variant, DRIVER, items, env=u.env, chunk=len(items) + 1, jobs=1,
                     extra_args=[G["cases_path"]], timeout=300)
+    # a result without the END field is a fragment left by a later crash: run that item again alone
+    for i, (status, text) in enumerate(out):
+        if status == "OK" and not text.endswith("\tEND"):
+            out[i] = run_batch(u.variant, DRIVER, [items[i]], env=u.env, chunk=2, jobs=1,
+                               extra_args=[G["cases_path"]], timeout=300)[0]
+            if out[i][0] == "OK" and not out[i][1].endswith("\tEND"):
+                raise HarnessError("driver result without END marker: %s" % out[i][1][:200])
+    out = [(st, tx[:-4] if st == "OK" else tx) for st, tx in out]
     for pat, (status, text) in zip(u.pats, out):
         if u.kind == "m":
             _check_match(u, pat, cases, status, text, res)
@@ -932,7 +943,7 @@ def main():
 
     # two nested contexts around every level-1 pattern with core operands (depth 4), thorough only
     if not quick:
-        outer = [c for c in context_forms() if c[0] in ("acc-seq-rest", "acc-alt-rest", "group-pre-tag", "any",
+        outer = [c for c in context_forms() if c[0] in ("acc-seq-rest", "acc-alt-rest", "two-tags", "any",
                                                         "window", "split", "to", "not-alt")]
         base2 = dedupe(level1(False))
         for oname, fo in outer:
@@ -944,7 +955,8 @@ def main():
     vjanet("fast")
     if any(p["variant"] == "asan" for p in parts):
         vjanet("asan")
-    print("C12 %s: %d parts" % (chk.tier, len(parts)))
+    t_run0 = time.time()    # the budget for the parts is counted from the end of the builds
+    print("C12 %s: %d parts (builds ready after %.0fs)" % (chk.tier, len(parts), chk.elapsed()))
     sys.stdout.flush()
     pool = multiprocessing.Pool(JOBS, initializer=_init_worker, initargs=(cases_path, sets))
 
@@ -954,7 +966,7 @@ def main():
         done_parts = []
         for part in parts:
             name = part["name"]
-            if chk.out_of_time(0.93):
+            if time.time() - t_run0 > chk.budget * 0.85:
                 chk.cap("time budget reached before part %s" % name)
                 continue
             units, npats, ncase = units_of(part)
